@@ -93,7 +93,15 @@ def run(ctx, drv):
                     add(f"encode {w} {v}", impl(t.encode, off + v), True, w == 5 and v == 5)
                     nexh += 1
                 for bits in itertools.product([False, True], repeat=t.nbits):
-                    r = impl(t.decode, list(bits))
+                    # a bit string is any sequence of truth values: mostly lists of bools (what encode / rand / the operators
+                    # produce), every third one a tuple, every fifth one 0/1 integers -- all mean the same string
+                    nform = nexh % 15
+                    given = bits if nform % 3 == 1 else ([int(b_) for b_ in bits] if nform % 5 == 2 else list(bits))
+                    r = impl(t.decode, given)
+                    if not isinstance(r, str) and (isinstance(r, bool) or not isinstance(r, int)):
+                        ctx.fail("decode-not-an-integer", {"min": off, "max": off + w, "bits": wbits(bits), "given_as": type(given).__name__ + " of " + type(given[0]).__name__},
+                                 repr(r)[:80], f"an integer in [{off},{off + w}]", "types.Integer.decode")
+                        r = "not-an-int"
                     add(f"decode {w} {wbits(bits)}", r if isinstance(r, str) else r - off, True, w == 5 and bits == (True, False, False))
                     nexh += 1
             oracle_width(ctx, t, off, w)
